@@ -31,6 +31,47 @@ def transport(P: Project) -> ClassInfo:
     return P.cls(A.MOD_HTTP, "StreamableHTTPTransport")
 
 
+def conditionally_evaluated_deliveries(P: Project, ci: ClassInfo):
+    """(function, expression, why) for every call to a method of `ci` from which a send on the incoming stream is reached
+    that stands in the right operand of `and`/`or`, or in an arm of a conditional expression: Python evaluates it only when
+    the operands before it allow (`answered = answered or await self._route(item)` stops routing after the first hit)."""
+    from ..roles import self_closure
+
+    meths = P.methods(ci)
+    sends = incoming_send_calls(P, ci)
+    direct = {f.name for f in meths.values() if any(isinstance(x, ast.Call) and call_name(x) in sends for x in walk_local(f.node))}
+    deliverers = {f.name for f in meths.values() if f.name in direct or set(self_closure(P, ci, f)) & direct}
+
+    def delivers(e) -> bool:
+        for x in ast.walk(e):
+            if isinstance(x, ast.Call) and call_name(x).startswith("self.") and call_name(x)[5:] in deliverers:
+                return True
+            if isinstance(x, ast.Call) and call_name(x) in sends:
+                return True
+        return False
+
+    out = []
+    for f in meths.values():
+        loops = [l for l in walk_local(f.node) if isinstance(l, (ast.For, ast.AsyncFor, ast.While))]
+        for s_ in walk_local(f.node):
+            # an accumulator updated from a short-circuit expression that mentions itself: `flag = flag or await route(x)`
+            if not (isinstance(s_, ast.Assign) and len(s_.targets) == 1 and isinstance(s_.targets[0], ast.Name)):
+                continue
+            acc = s_.targets[0].id
+            if not any(s_ in list(walk_local(l)) for l in loops):
+                continue
+            for n in ast.walk(s_.value):
+                if isinstance(n, ast.BoolOp):
+                    for i, v in enumerate(n.values[1:], 1):
+                        before = n.values[:i]
+                        if delivers(v) and any(isinstance(x, ast.Name) and x.id == acc for b in before for x in ast.walk(b)):
+                            out.append((f, n, f"the delivery is evaluated only while `{acc}` — carried over from the members before — is {'false' if isinstance(n.op, ast.Or) else 'true'}"))
+                            break
+                elif isinstance(n, ast.IfExp) and (delivers(n.body) != delivers(n.orelse)) and any(isinstance(x, ast.Name) and x.id == acc for x in ast.walk(n.test)):
+                    out.append((f, n, f"the delivery is one arm of a conditional expression decided by `{acc}`, carried over from the members before"))
+    return out
+
+
 def find_router(P: Project, ci: ClassInfo) -> FuncInfo:
     c = [f for f in P.methods(ci).values() if any(isinstance(x, ast.Call) and call_name(x) in incoming_send_calls(P, ci) for x in walk_local(f.node))]
     if len(c) != 1:
@@ -745,6 +786,12 @@ def check(P: Project, R: Report) -> None:
         opens = sorted({e for st in list(ro.normal) + [s_ for s_, _n in ro.ret] for e in st.events if e.startswith("validate:open:")})
         R.ob("R3", "the single-message validator is reached only with a value already known not to be a list", not opens, f"{router.module.rel}:{val_calls[0].lineno}",
              f"a path reaches `{ast.unparse(val_calls[0])[:60]}` without having excluded a list ({opens[:1]})", sample="R3 validate(x) only under `not isinstance(x, list)`")
+
+    # every member is routed: a delivery never sits where Python evaluates it only if an earlier result allows it
+    for f_, node_, why_ in conditionally_evaluated_deliveries(P, ci):
+        R.ob("R3", f"{f_.qual}: every message of a body is routed, whatever came before it", False, f"{f_.module.rel}:{node_.lineno}",
+             f"`{ast.unparse(node_)[:70]}` — {why_}: once an earlier member produced a true (or false) value the remaining members of the array are never routed")
+    R.ob("R3", "no delivery call is short-circuited by a flag carried over from earlier members of the same body", not conditionally_evaluated_deliveries(P, ci), f"{router.module.rel}:{router.node.lineno}", "", sample="R3 deliveries are statements or left operands")
 
     # ------------------------------------------------------------------ R4
     loops = [(f, n) for f in meths.values() for n in walk_local(f.node) if isinstance(n, (ast.AsyncFor, ast.For)) and ("self." + stream_roles(P, ci)["outgoing_recv"]) in ast.unparse(n.iter)]
